@@ -22,6 +22,7 @@ func Spec() *run.Spec {
 		Rule: "phase histories: case = one edit history of 5-80 operations through the graph.Instance methods the HTTP handlers call (CreateNode over every registered node type incl. harness-registered order-sensitive array / formatting nodes, ConnectNodes incl. bursts that take array inputs to 0-15 entries, DeleteNodeInputConnection, UpdateParameter for every parameter type, SetName/SetDescription, SetNodeAsProducer, SetMetadata/DeleteMetadata, DeleteNode of nodes nothing depends on, generating an artifact mid-history), with intermediate saves like the editor's autosave (App.Schema() after every edit / after a random fifth of the edits / never; every tenth intermediate file is itself loaded into a fresh application and compared with the graph at that moment), starting from an empty application or from a hand-built App.Files graph; " +
 			"then S1 = App.Schema(), a fresh generator.App applies S1, and the two applications are compared through public observers (node ids and types, per node the map input name -> dependency id:port with array inputs by position, parameter ToMessage()/name/Schema(), producers, metadata tree, application fields), every producer's artifact is generated on both sides and compared, and S2 = fresh.Schema() must equal S1 byte for byte. " +
 			"Non-trivial: the saved graph has an array input with >= 10 connections or >= 3 parameter types. Distinctness: start state / node-count bucket / longest array bucket / parameter-type count / producer count / deletions / metadata. " +
+			"phase large-arrays: one array input of an order-sensitive harness node receives 352, 1000-1200, 256, 600, 257, 400, 100, 255 (then also random 100-1200) connections from 3-12 sources (parameters and harness nodes of the element type, random picks), with 2-4 disconnects in the middle, a few intermediate saves (one of them reloaded and compared, mostly past position 256), a text producer over the array where the node is string-valued; then the same save / reload / compare / re-save / artifact checks. " +
 			"phase ufo: the shipped examples/graphs/ufo.json: load -> save must reproduce the file, S1 into three fresh applications (structure, S2 == S1, artifacts; a producer whose three artifacts are not pairwise identical is excluded as non-deterministic; .glb compared after parsing).",
 		Assumptions: []string{
 			"parameter messages are valid JSON for the parameter type (rejected messages are counted, not compared); vector components exclude -0 (vector types print it as 0)",
@@ -31,6 +32,10 @@ func Spec() *run.Spec {
 			"metadata posted under nodes.<id> are objects (Schema() type-asserts them), keys contain no dots",
 		},
 		MinNontrivial: map[string]int{"quick": 40, "thorough": 200},
+		MinObservedTier: map[string]map[string]int64{
+			"quick":    {"large_arrays_ge256": 5, "large_arrays_ge352": 4, "large_arrays_ge1000": 1, "large_array_connections": 2500},
+			"thorough": {"large_arrays_ge256": 50, "large_arrays_ge352": 35, "large_arrays_ge1000": 8, "large_array_connections": 30000},
+		},
 		MinObserved: map[string]int64{
 			"saved_graphs_array_ge10":    20,
 			"artifacts_compared":         100,
@@ -52,6 +57,12 @@ func Spec() *run.Spec {
 				}
 				return 400
 			}, Run: historyCase, Batch: 10, CPUBudgetS: 120},
+			{Name: "large-arrays", Cases: func(t string) int {
+				if t == "thorough" {
+					return 80
+				}
+				return 6
+			}, Run: largeArrayCase, Batch: 2, CPUBudgetS: 120},
 			{Name: "ufo", Cases: func(t string) int {
 				if t == "thorough" {
 					return 4
@@ -301,7 +312,10 @@ func checkReload(c *run.Ctx, res *run.Result, h *hist, final bool) {
 			}
 		}
 		var scratch run.Result
-		h2 := runHistory(c, &scratch)
+		var h2 *hist
+		if !h.noReplay {
+			h2 = runHistory(c, &scratch)
+		}
 		var replayed *artifactResult
 		if h2 != nil && !h2.dead && h2.g != nil {
 			x := generate(h2.g, name)
